@@ -60,11 +60,12 @@ def _has_quant(t):
 class Engine(Evaluator):
     BUILTINS = {'len', 'min', 'max', 'abs', 'int', 'range', 'list', 'tuple', 'isinstance', 'slice', 'all', 'any',
                 'implies', 'old', 'enumerate', 'zip', 'ceil', 'floor', 'float', 'bool', 'str', 'dict', 'getattr',
-                'round', 'iff', 'sorted', 'ite', 'map', 'super', 'fresh_obj', 'same_fields_except', 'is_fresh', 'psum'}
+                'round', 'iff', 'sorted', 'ite', 'map', 'super', 'fresh_obj', 'same_fields_except', 'is_fresh', 'psum', 'ops_fold', 'op_row', 'nblocks', 'flat', 'elems'}
 
     def __init__(self, spec_module_path=None):
         self.obs = []
         self.cur = None           # current contract
+        self.cur_tag = ''
         self.cur_func_line = 0
         self.spec_funcs = {}
         self.assumed_used = set()
@@ -111,7 +112,11 @@ class Engine(Evaluator):
             if st.decide(goal):
                 return
             raise _Raise(raises)
-        ob = Ob(name, kind, label, list(st.pc), goal, line, self.cur.key)
+        hyps = list(st.pc)
+        d = str_distinct()
+        if d is not None:
+            hyps.append(d)
+        ob = Ob(name, kind, label, hyps, goal, line, self.cur.key)
         self.obs.append(ob)
         st.assume(goal)
 
@@ -140,6 +145,13 @@ class Engine(Evaluator):
             lv, n = st.heap.fresh_list(t[1], base)
             st.assume(n >= 0)
             return VList(lv.ref, nd=(k == 'arr'))
+        if k == 'blocks':
+            flat, n = st.heap.fresh_list(t[1], base + '.flat')
+            st.assume(n >= 0)
+            cnt = z3.Int(fresh_name(base + '.count'))
+            st.assume(cnt >= 0)
+            o = st.heap.alloc_obj('<blocks>', {'flat': flat, 'count': VInt(cnt)})
+            return VBlocks(o.ref)
         if k == 'tuple':
             return VTuple([self.fresh_value(x, '%s.%d' % (base, i), st) for i, x in enumerate(t[1])])
         if k == 'slice':
@@ -187,11 +199,11 @@ class Engine(Evaluator):
         seen = set()
         while cls and cls not in seen:
             seen.add(cls)
-            for c in BY_NAME.get('%s.%s' % (cls, attr), []):
-                if c.qual == '%s.%s' % (cls, attr):
-                    if c.is_property:
-                        return self.apply_contract(c, [obj], {}, st, None)
-                    return VFunc('method', attr, self_val=obj, extra=c)
+            cands = [c for c in BY_NAME.get('%s.%s' % (cls, attr), []) if c.qual == '%s.%s' % (cls, attr)]
+            if cands:
+                if cands[0].is_property:
+                    return self.apply_contract(cands[0], [obj], {}, st, None)
+                return VFunc('method', attr, self_val=obj, extra=cands)
             f = (CLASSES.get(cls) or {}).get('file')
             bases = front.class_bases(f, cls) if f else []
             cls = bases[0] if bases else None
@@ -213,7 +225,7 @@ class Engine(Evaluator):
                 try:
                     b = self.truth(self.ev(node.args[1], st), st)
                 finally:
-                    del st.pc[save:]
+                    del st.pc[save]
                 return VBool(z3.Implies(a, b))
         f = self.ev(node.func, st)
         args = []
@@ -241,7 +253,22 @@ class Engine(Evaluator):
             if f.kind == 'contract':
                 return self.apply_contract(self.pick_variant(f.extra, args, kw, st), args, kw, st, node)
             if f.kind == 'method':
-                return self.apply_contract(f.extra, [f.self_val] + args, kw, st, node)
+                return self.apply_contract(self.pick_variant(f.extra, [f.self_val] + args, kw, st), [f.self_val] + args, kw, st, node)
+            if f.kind == 'nddunder':
+                # ndarray.__op__(arg) / ndarray.__op__(): row-wise (NumPy facts E1-E3, assumed; definition of op_row)
+                self.assumed_used.add('<lib>::ndarray.__op__ is row-wise (E1-E3)')
+                r = self.map_rows(f.self_val, f.extra, args[0] if args else VNone(), st)
+                if r is None:
+                    raise Unsupported('ndarray dunder on non-row data')
+                return r
+            if f.kind == 'blocksmethod':
+                blk = st.heap.objs[f.self_val.ref]
+                rows = args[0]
+                if not isinstance(rows, VList):
+                    raise Unsupported('appending %r to a list of row blocks' % (rows,))
+                self.list_concat(blk['flat'], rows, st, into=blk['flat'])
+                blk['count'] = VInt(as_int(blk['count']) + 1)
+                return VNone()
             if f.kind == 'spec':
                 return self.inline_spec(f.name, args, kw, st)
             if f.kind == 'listmethod':
@@ -267,6 +294,12 @@ class Engine(Evaluator):
             return self.call_builtin(name.split('.')[1], args, kw, st, node)
         if name == 'copy.copy':
             return self.shallow_copy(args[0], st)
+        if name in ('np.vstack', 'np.concatenate') and args and isinstance(args[0], VBlocks):
+            blk = st.heap.objs[args[0].ref]
+            self.oblige(st, 'pre', '%s.at-least-one-array' % name, as_int(blk['count']) >= 1, node, raises='ValueError')
+            c = st.heap.lists[blk['flat'].ref]
+            r = st.heap.alloc_list(c.etype, c.length, c.leaves)
+            return VList(r.ref, nd=True)
         h = self.module_hook(name, args, kw, st, node)
         if h is not None:
             return h
@@ -447,6 +480,8 @@ class Engine(Evaluator):
         if name == 'ite':
             return self.merge_if(self.truth(args[0], st), args[1], args[2], st)
         if name == 'getattr':
+            if isinstance(args[1], VDunder) and isinstance(args[0], VList):
+                return VFunc('nddunder', 'dunder', self_val=args[0], extra=args[1].op)
             if isinstance(args[1], VStr):
                 try:
                     return self.getattr_(args[0], args[1].s, st, node)
@@ -454,6 +489,43 @@ class Engine(Evaluator):
                     if len(args) > 2:
                         return args[2]
                     raise
+        if name == 'elems':
+            return VFunc('elems', 'elems')
+        if name == 'nblocks':
+            return st.heap.objs[args[0].ref]['count']
+        if name == 'flat':
+            return st.heap.objs[args[0].ref]['flat']
+        if name == 'op_row':
+            f = z3.Function('op_row', Elem, Elem, Elem, Elem)
+            return VElem(f(*[flatten('elem', a)[0] for a in args]))
+        if name == 'ops_fold':
+            # fold of the deferred operator list over ONE row: ops_fold(ops, n, row) applies the first n operators in order.
+            # Definitional axioms (unfold, base) are emitted per list term; prefix-determinacy for Store-built lists is the
+            # generic fold lemma (bridging lemma L6, DESIGN 2.11).
+            lv, n, row = args[0], as_int(args[1]), flatten('elem', args[2])[0]
+            cell = st.heap.lists[lv.ref]
+            if cell.etype != ('tuple', ['elem', 'elem']):
+                raise Unsupported('ops_fold over a list that is not list[tuple[elem,elem]]')
+            A, B = cell.leaves
+            AS = z3.ArraySort(z3.IntSort(), Elem)
+            F = z3.Function('ops_fold', AS, AS, z3.IntSort(), Elem, Elem)
+            OPR = z3.Function('op_row', Elem, Elem, Elem, Elem)
+            key = ('ops_fold', A.get_id(), B.get_id())
+            if not any(getattr(t, '_ax_key', None) == key for t in st.pc):
+                m, r = z3.Int(fresh_name('m')), z3.Const(fresh_name('r'), Elem)
+                ax = [z3.ForAll([r], F(A, B, z3.IntVal(0), r) == r),
+                      z3.ForAll([m, r], z3.Implies(m >= 1, F(A, B, m, r) == OPR(A[m - 1], B[m - 1], F(A, B, m - 1, r))))]
+                a0, b0 = A, B
+                while z3.is_store(a0) and z3.is_store(b0) and a0.children()[1].eq(b0.children()[1]):
+                    i = a0.children()[1]
+                    a1, b1 = a0.children()[0], b0.children()[0]
+                    m2, r2 = z3.Int(fresh_name('m')), z3.Const(fresh_name('r'), Elem)
+                    ax.append(z3.ForAll([m2, r2], z3.Implies(z3.And(m2 >= 0, m2 <= i), F(a0, b0, m2, r2) == F(a1, b1, m2, r2))))
+                    a0, b0 = a1, b1
+                t = z3.And(ax)
+                t._ax_key = key
+                st.pc.append(t)
+            return VElem(F(A, B, n, row))
         if name == 'psum':
             # prefix sum of the first k elements of an int list: uninterpreted with its recursive definition as axioms
             lv, k = args[0], as_int(args[1])
@@ -628,6 +700,8 @@ class Engine(Evaluator):
     # ---- applying a callee contract ---------------------------------------------------------------------
     def bind_params(self, c, args, kw, st):
         names = list(c.params)
+        if '.' in c.qual and 'self' not in names:
+            names = ['self'] + names
         env = {}
         pos = [a for a in args if not isinstance(a, tuple)]
         if len(pos) > len(names) and not c.varargs:
@@ -654,6 +728,18 @@ class Engine(Evaluator):
         return env
 
     def apply_contract(self, c, args, kw, st, node):
+        if st.spec or not self.cur_tag:
+            return self._apply_contract(c, args, kw, st, node)
+        line = (getattr(node, 'lineno', self.cur_func_line) - self.cur_func_line) if node is not None else 0
+        nm = '%s.canary.%s@L%d' % (self.cur_tag, c.qual, line)
+        before = Ob(nm + '.before', 'cover', 'consistent-before-call', list(st.pc), None, line, self.cur.key)
+        res = self._apply_contract(c, args, kw, st, node)
+        after = Ob(nm + '.after', 'cover', 'consistent-after-call', list(st.pc), None, line, self.cur.key)
+        self.obs.append(before)
+        self.obs.append(after)
+        return res
+
+    def _apply_contract(self, c, args, kw, st, node):
         if c.kind == 'assumed':
             self.assumed_used.add(c.key)
         env = self.bind_params(c, args, kw, st)
@@ -694,6 +780,12 @@ class Engine(Evaluator):
             # result
             if c.result is None:
                 res = VNone()
+            elif c.result_from:
+                src = env[c.result_from['copy_of']]
+                res = st.heap.alloc_obj(src.cls, dict(st.heap.objs[src.ref]))
+                ftypes = {k: parse_type(v) for k, v in c.fields.items()}
+                for fname in c.result_from.get('fresh', []):
+                    st.heap.objs[res.ref][fname] = self.fresh_value(ftypes[fname], '%s.res.%s' % (c.qual.split('.')[-1], fname), st)
             else:
                 res = self.fresh_value(parse_type(c.result) if isinstance(c.result, str) else c.result, c.qual.split('.')[-1] + '.res', st)
             st.env['result'] = res
@@ -829,6 +921,10 @@ class Engine(Evaluator):
         if isinstance(tgt, ast.Name):
             if isinstance(val, VList) and st.heap.lists[val.ref].etype is None and tgt.id in self.cur.locals:
                 t = parse_type(self.cur.locals[tgt.id])
+                if t[0] == 'blocks':
+                    flat = st.heap.alloc_list(t[1], z3.IntVal(0), [z3.K(z3.IntSort(), self.default_of(s)) for s in leaf_sorts(t[1])])
+                    o = st.heap.alloc_obj('<blocks>', {'flat': flat, 'count': VInt(0)})
+                    val = VBlocks(o.ref)
                 if t[0] == 'list':
                     cell = st.heap.lists[val.ref]
                     st.heap.lists[val.ref] = ListCell(t[1], cell.length, [z3.K(z3.IntSort(), self.default_of(s)) for s in leaf_sorts(t[1])])
@@ -998,6 +1094,15 @@ class Engine(Evaluator):
                         st.heap.objs[obj.ref][a] = self.fresh_value(infer_etype(cur), a, st)
             elif m not in names:
                 cur = st.env.get(m)
+                if isinstance(cur, VBlocks):
+                    blk = st.heap.objs[cur.ref]
+                    cell = st.heap.lists[blk['flat'].ref]
+                    tmp, ln = st.heap.fresh_list(cell.etype, m + '.flat')
+                    st.assume(ln >= 0)
+                    st.heap.lists[blk['flat'].ref] = st.heap.lists.pop(tmp.ref)
+                    cnt = z3.Int(fresh_name(m + '.count'))
+                    st.assume(cnt >= 0)
+                    blk['count'] = VInt(cnt)
                 if isinstance(cur, VList):
                     cell = st.heap.lists[cur.ref]
                     if cell.etype is None:
@@ -1131,6 +1236,8 @@ class Engine(Evaluator):
                 raise Unsupported('for over a tuple')
         hidden = idx
         st.env[hidden] = VInt(0)
+        if lc.get('seq'):
+            st.env[lc['seq']] = seqs[0]
         lens = [st.heap.lists[s.ref].length for s in seqs]
         n = lens[0]
         for l in lens[1:]:
